@@ -564,6 +564,13 @@ def wfLoose (r : GbRec) : Bool :=
 def WF (r : GbRec) : Prop := wf r = true
 instance (r : GbRec) : Decidable (WF r) := inferInstanceAs (Decidable (_ = _))
 
+/-- the property's quantifier speaks of "qualifier values over printable ASCII other than the double quote": no
+qualifier value of the record holds a quotation mark.  (`wfQual` — and with it the theorems — also admits quotation marks
+INSIDE a value, for property C03's round trip; such records are outside C01's quantifier and are not judged: what a
+`""` inside a quoted value states, one `"` by the INSDC escape or two, is not something this property decides.) -/
+def quoteFreeValues (r : GbRec) : Bool :=
+  r.features.all fun f => f.quals.all fun q => !(List.elem '"' q.2)
+
 /-- "no line other than a record terminator ends in //" -/
 def noSlashEnd (r : GbRec) (ℓ : RecLayout) : Bool :=
   ((layout r ℓ).dropLast).all (fun l => !hasSuffix l c!"//")
